@@ -91,26 +91,32 @@ func verifC02() {
 	cfg := c02Config(cfgNo)
 	full := []FullTriggerState{{ChannelIndices: []int{0}, TriggerState: cfg.ts}}
 	var rig *tRig
+	// frame0zero: the stream starts at frame 0, as every real source's does after Start
+	// (otherwise: an arbitrary first frame >= 1000)
+	symF0 := vParam("frame0zero", 0) == 0
 	switch hist {
 	case 0: // fresh start with trigger settings restored from the saved configuration
-		rig = newTRig(1, npre, nsamp, total, full, true)
+		rig = newTRig(1, npre, nsamp, total, full, symF0)
 	case 1: // fresh start, then a trigger request
-		rig = newTRig(1, npre, nsamp, total, nil, true)
+		rig = newTRig(1, npre, nsamp, total, nil, symF0)
 		vCheck(rig.ds.ChangeTriggerState(&full[0]) == nil, "ChangeTriggerState accepted")
 	case 2: // restored settings, then a pulse-length request that changes nothing
-		rig = newTRig(1, npre, nsamp, total, full, true)
+		rig = newTRig(1, npre, nsamp, total, full, symF0)
 		vCheck(rig.ds.ConfigurePulseLengths(nsamp, npre) == nil, "ConfigurePulseLengths accepted")
 	case 3: // trigger request, then a pulse-length request that shortens the record
-		rig = newTRig(1, npre, nsamp+3, total, nil, true)
+		rig = newTRig(1, npre, nsamp+3, total, nil, symF0)
 		vCheck(rig.ds.ChangeTriggerState(&full[0]) == nil, "ChangeTriggerState accepted")
 		vCheck(rig.ds.ConfigurePulseLengths(nsamp, npre) == nil, "ConfigurePulseLengths accepted")
 	default: // trigger request, then a pulse-length request that lengthens the record a lot
-		rig = newTRig(1, npre, 4, total, nil, true)
+		rig = newTRig(1, npre, 4, total, nil, symF0)
 		vCheck(rig.ds.ChangeTriggerState(&full[0]) == nil, "ChangeTriggerState accepted")
 		vCheck(rig.ds.ConfigurePulseLengths(nsamp, npre) == nil, "ConfigurePulseLengths accepted")
 		rig.nsamp = nsamp
 	}
 	rig.signed = vRange("signed", 0, 1) == 1
+	if !symF0 {
+		rig.frame0 = 0
+	}
 	var trigs []int
 	for b := 0; b < nblocks; b++ {
 		rig.feed(lens[b])
